@@ -1,13 +1,13 @@
 #!/bin/bash
 # selftest.sh [seed-id ...]: run each seeded patch (seeded/<id>/patch.diff) against its property's check on a
 # scratch copy of /repo (VERIF_REPO) and print what the check reported. Leaves /repo untouched.
-cd /verif
+cd "$(dirname "$0")/.."
 ids=${@:-$(ls seeded | grep -v INDEX)}
 for id in $ids; do
   pid=$(python3 -c "import json;print(json.load(open('seeded/$id/meta.json'))['property'])")
   tmp=$(mktemp -d /tmp/selftest.XXXX)
   rsync -a --exclude .git /repo/ $tmp/repo/
-  if ! (cd $tmp/repo && patch -p1 -s < /verif/seeded/$id/patch.diff); then echo "$id: patch does not apply"; rm -rf $tmp; continue; fi
+  if ! (cd $tmp/repo && patch -p1 -s < $OLDPWD/seeded/$id/patch.diff); then echo "$id: patch does not apply"; rm -rf $tmp; continue; fi
   out=$(VERIF_REPO=$tmp/repo ./check $pid 2>&1 | grep -E "^VIOLATION|^KNOWN|OK tier|FAILED tier" | tr '\n' ' ')
   echo "$id [$pid]: $out"
   rm -rf $tmp
